@@ -40,8 +40,8 @@ BASE = {
     "A": ["~A", "1.0 10.5 2.25 -0.125", "2.0 -999.25 2.5 0.375"],
 }
 BOUNDS = {
-    "quick": {"line_cap": 3, "sections": ["W", "P"], "optsets": [0, 1], "task_budget_s": 1200},
-    "thorough": {"line_cap": 4, "sections": ["W", "P", "C"], "optsets": [0, 1, 2, 3], "task_budget_s": 3300},
+    "quick": {"line_cap": 3, "sections": ["P"], "optsets": [0, 1, 2], "task_budget_s": 1200},
+    "thorough": {"line_cap": 4, "sections": ["P", "C"], "optsets": [0, 1, 2, 3], "task_budget_s": 3300},
 }
 ASSUMPTIONS = [
     "one symbolic header line (every printable-ASCII string up to the capacity) in ~W, ~P or ~C of the listed base file; lines the first read rejects are not accepted inputs",
@@ -49,7 +49,20 @@ ASSUMPTIONS = [
     "three reads / two writes per run: s3 == s2 is the statement's fixed point; longer cycle counts follow only for states of s2's form",
 ]
 WITNESS_TARGETS = ["symbolic-line-parsed-as-item", "symbolic-line-skipped-or-comment", "second-re-read-compared"]
-EXCLUSIONS = {}
+def _tilde_sym(i):
+    from symlas import symre
+
+    Ls = SymStr.lift(SymStr.lift(i["L"]).strip())
+    return symre.match_expr(r"\.\s*~", Ls)
+
+
+def _tilde_conc(i):
+    import re
+
+    return re.match(r"\.\s*~", i["L"].strip()) is not None
+
+
+EXCLUSIONS = {"line_parsed_into_a_mnemonic_starting_with_tilde": (_tilde_sym, _tilde_conc)}
 
 
 def tasks(tier):
